@@ -2188,10 +2188,12 @@ class Node(_protocols.NodeProtocol, _display.PrettyPrintable):
         self.device_configurations: tuple[NodeDeviceConfiguration, ...] = device_configurations
         # _graph is set by graph.append
         self._graph: Graph | None = None
+        # Assign every attribute before the node is handed to the graph: graph.append() may be
+        # observed (e.g. by an active Journal, which takes repr(node)) and must see a complete node
+        self.doc_string = doc_string
         # Add the node to the graph if graph is specified
         if graph is not None:
             graph.append(self)
-        self.doc_string = doc_string
 
         # Add the node as a use of the inputs
         for i, input_value in enumerate(self._inputs):
